@@ -3,6 +3,7 @@
 package cmdlib
 
 import (
+	"time"
 	"fmt"
 
 	"github.com/hashicorp/consul/agent/structs"
@@ -56,7 +57,8 @@ var SessionIDs = map[string]string{
 	"s2": "22222222-2222-2222-2222-222222222222",
 	"s3": "33333333-3333-3333-3333-333333333333",
 	"s4": "44444444-4444-4444-4444-444444444444",
-	"s9": "99999999-9999-9999-9999-999999999999", // never created by any alphabet
+	"s5": "55555555-5555-5555-5555-555555555555",
+	"s9": "99999999-9999-9999-9999-999999999999", // never created by the C03/C04 alphabets
 }
 
 func kvCur(w *world.World, key string) uint64 {
@@ -209,6 +211,9 @@ type SessionSpec struct {
 
 func (s SessionSpec) Create() world.Op {
 	n := fmt.Sprintf("session.create(%s@%s,%s,checks=%v)", s.Name, s.Node, s.Behavior, s.NodeChecks)
+	if s.LockDelay != 0 {
+		n = fmt.Sprintf("session.create(%s@%s,%s,checks=%v,lock-delay=%ds)", s.Name, s.Node, s.Behavior, s.NodeChecks, s.LockDelay)
+	}
 	return world.Op{Name: n, Kind: "session/create", Build: func(w *world.World) (structs.MessageType, any, bool) {
 		// the endpoint never re-uses a live ID; mirror that
 		if _, sess, _ := w.Store().SessionGet(nil, SessionIDs[s.Name], nil); sess != nil {
@@ -216,7 +221,7 @@ func (s SessionSpec) Create() world.Op {
 		}
 		return structs.SessionRequestType, &structs.SessionRequest{Datacenter: DC, Op: structs.SessionCreate,
 			Session: structs.Session{ID: SessionIDs[s.Name], Name: s.SessName, Node: s.Node, Behavior: s.Behavior,
-				NodeChecks: s.NodeChecks, TTL: s.TTL}}, true
+				NodeChecks: s.NodeChecks, TTL: s.TTL, LockDelay: time.Duration(s.LockDelay) * time.Second}}, true
 	}}
 }
 
